@@ -7,5 +7,5 @@ Extraction "../extract/gen/fmt_spec.ml"
   parse_file all_dds live find_dd is_special base_tag p_special raw_of
   chk_blocks chk_nodup chk_extents chk_overlap chk_special chk_vrecords wf_check
   element data_extents datainfo_answer parse_vh parse_vg special_ok vrecord_ok extent_ok sub p_linktable
-  orphan_blocks p_sdd luf_nth palettes pal_answer attr_find gr_getpalinfo sd_attr_lookup
+  orphan_blocks p_sdd luf_nth palettes pal_answer attr_find gr_getpalinfo sd_attr_lookup vsattr_nth vs_getattdatainfo_entry
   special_encode vh_encode vg_encode linktable_encode block_encode dd_encode hl_getdatainfo link_tables.
